@@ -339,6 +339,15 @@ def conversion(ck: Check, info):
         stats["classes"] += 1
         for j in range(n_per):
             msg = protogen.random_message(pb, rng, p_set=[0.0, 1.0, 0.7, 0.5][j % 4])
+            # repeated scalar fields with REPEATED values (a list is a list, not a set)
+            if j % 4 == 1:
+                for fd in pb.DESCRIPTOR.fields:
+                    if fd.is_repeated and fd.type not in (FD.TYPE_MESSAGE,):
+                        lst = getattr(msg, fd.name)
+                        if len(lst) == 0 and fd.type == FD.TYPE_STRING:
+                            lst.append("dup")
+                        if len(lst) > 0:
+                            lst.extend([lst[0], lst[-1], lst[0]])
             # unknown enum numbers - in nested messages too (every element of a repeated message field is kept; only ITS enum
             # field becomes None)
             if j % 3 == 2:
@@ -405,6 +414,12 @@ def conversion(ck: Check, info):
                     if mv is not want:
                         ck.violation(f"enum-field:{cname}.{f.name}:{wv}", f"{cname}.from_pb: wire enum number {wv} became {mv!r}, "
                                      f"expected {want!r}", {"class": cname, "field": f.name, "value": wv})
+                if fd.is_repeated and fd.type not in (FD.TYPE_FLOAT, FD.TYPE_MESSAGE, FD.TYPE_ENUM) and kind not in ("uuid", "map") \
+                        and not kind.startswith(("enumlist:", "nested")) and isinstance(mv, (list, tuple)):
+                    if list(mv) != list(wv):
+                        ck.violation(f"list-field:{cname}.{f.name}", f"{cname}.from_pb changed the repeated field {f.name}: wire {list(wv)!r}, model "
+                                     f"{list(mv)!r} (every element is kept, in order, repeats included)",
+                                     {"class": cname, "field": f.name, "payload": msg.SerializeToString().hex()})
                 if kind.startswith("nestedlist:"):
                     if len(mv) != len(wv):
                         ck.violation(f"nested-list-length:{cname}.{f.name}", f"{cname}.from_pb: the wire message lists {len(wv)} {kind[11:]} "
